@@ -334,6 +334,8 @@ class DtypeDefinition:
         if length is None:
             d = Dtype._create(self, None, scale)
             return d
+        if length < 0:
+            raise ValueError(f"A negative length ({length}) was supplied for the '{self.name}' dtype.")
         if self.variable_length:
             raise ValueError(f"A length ({length}) shouldn't be supplied for the variable length dtype '{self.name}'.")
         d = Dtype._create(self, length, scale)
